@@ -12,6 +12,7 @@ package mainmw
 //@ import filter github.com/AdguardTeam/AdGuardDNS/internal/filter
 //@ import dnsserver github.com/AdguardTeam/AdGuardDNS/internal/dnsserver
 //@ import netip net/netip
+//@ import dnsmsg github.com/AdguardTeam/AdGuardDNS/internal/dnsmsg
 
 //@ immutable Middleware.*
 
@@ -69,3 +70,48 @@ package mainmw
 //@             qlEntry.DomainFQDN == fctx.originalRequest.Question[0].Name && qlEntry.RequestType == ri.QType && qlEntry.Protocol == ri.Proto &&
 //@             qlEntry.RequestID == ri.ID && qlEntry.RequestResult == fctx.requestResult && qlEntry.ResponseResult == fctx.responseResult &&
 //@             qlEntry.ResponseCode == (fctx.filteredResponse == nil ? 255 : wrap(fctx.filteredResponse.Rcode, uint16))
+
+// ---------------------------------------------------------------------------
+// C02: the verdict on the request takes precedence over the one on the
+// response, and a blocked query is answered by the requester's own message
+// constructor - never with the records obtained from upstream.
+
+// blockedBy[m] is the constructor that built blocked response m.
+//@ ghost blockedBy map[*dns.Msg]*dnsmsg.Constructor
+//@ func (*dnsmsg.Constructor).NewBlockedResp
+//@   modifies blockedBy
+//@   ensures err == nil ==> msg != nil && fresh(msg) && blockedBy[msg] == c
+//@   ensures err != nil ==> msg == nil
+//@   ensures forall m *dns.Msg :: m != msg ==> blockedBy[m] == old(blockedBy[m])
+//@ func (*dnsmsg.Constructor).NewBlockedRespRCode
+//@   modifies blockedBy
+//@   ensures resp != nil && fresh(resp) && blockedBy[resp] == c
+//@   ensures forall m *dns.Msg :: m != resp ==> blockedBy[m] == old(blockedBy[m])
+
+//@ pred knownRes(r filter.Result) = r == nil || isptr(r, filter.ResultAllowed) || isptr(r, filter.ResultBlocked) ||
+//@        isptr(r, filter.ResultModifiedResponse) || isptr(r, filter.ResultModifiedRequest)
+//@ pred FC(fctx *filteringContext, ri *agd.RequestInfo) = fctx != nil && ri != nil && ri.Messages != nil && fctx.originalRequest != nil &&
+//@        knownRes(fctx.requestResult) && (fctx.requestResult == nil ==> fctx.responseResult == nil || isptr(fctx.responseResult, filter.ResultAllowed) || isptr(fctx.responseResult, filter.ResultBlocked)) &&
+//@        (isptr(fctx.requestResult, filter.ResultModifiedResponse) ==> asptr(fctx.requestResult, filter.ResultModifiedResponse) != nil)
+
+//@ func (*Middleware).setFilteredResponseNoReq
+//@   property C02
+//@   requires mw != nil && mw.logger != nil && FC(fctx, ri) && fctx.requestResult == nil
+//@   modifies fctx.filteredResponse, blockedBy
+//@   ensures unfiltered-or-allowed-gets-the-upstream-answer: fctx.responseResult == nil || isptr(fctx.responseResult, filter.ResultAllowed) ==> fctx.filteredResponse == fctx.originalResponse
+//@   ensures blocked-answer-comes-from-the-requesters-constructor: isptr(fctx.responseResult, filter.ResultBlocked) ==>
+//@             fctx.filteredResponse != nil && fresh(fctx.filteredResponse) && blockedBy[fctx.filteredResponse] == ri.Messages
+
+//@ func (*Middleware).setFilteredResponse
+//@   property C02
+//@   requires mw != nil && mw.logger != nil && FC(fctx, ri)
+//@   modifies fctx.filteredResponse, blockedBy
+//@   ensures request-verdict-first-allowed: isptr(fctx.requestResult, filter.ResultAllowed) || isptr(fctx.requestResult, filter.ResultModifiedRequest) ==>
+//@             fctx.filteredResponse == fctx.originalResponse
+//@   ensures request-verdict-first-rewritten: isptr(fctx.requestResult, filter.ResultModifiedResponse) ==>
+//@             fctx.filteredResponse == asptr(fctx.requestResult, filter.ResultModifiedResponse).Msg
+//@   ensures blocked-answer-comes-from-the-requesters-constructor: isptr(fctx.requestResult, filter.ResultBlocked) ||
+//@             (fctx.requestResult == nil && isptr(fctx.responseResult, filter.ResultBlocked)) ==>
+//@             fctx.filteredResponse != nil && fresh(fctx.filteredResponse) && blockedBy[fctx.filteredResponse] == ri.Messages
+//@   ensures nothing-filtered-nothing-changed: fctx.requestResult == nil && (fctx.responseResult == nil || isptr(fctx.responseResult, filter.ResultAllowed)) ==>
+//@             fctx.filteredResponse == fctx.originalResponse
